@@ -677,8 +677,8 @@ class InterpolatableFunction(ABC):
 
             ## Point spacing to use at new lower end
             spacing = np.abs(self._rangeMin - newMin) / pointsMin
-            # arange stops one spacing before the max value, which is what we want
-            appendPointsMin = np.arange(newMin, self._rangeMin, spacing)
+            # pointsMin points from newMin up to one spacing before the current lower end
+            appendPointsMin = newMin + spacing * np.arange(pointsMin)
         else:
             appendPointsMin = np.array([])
 
@@ -687,9 +687,7 @@ class InterpolatableFunction(ABC):
 
             ## Point spacing to use at new upper end
             spacing = np.abs(newMax - self._rangeMax) / pointsMax
-            appendPointsMax = np.arange(
-                self._rangeMax + spacing, newMax + spacing, spacing
-            )
+            appendPointsMax = self._rangeMax + spacing * np.arange(1, pointsMax + 1)
         else:
             appendPointsMax = np.array([])
 
